@@ -43,9 +43,14 @@ int x509_cert_new_from_file(uint8_t **out, size_t *outlen, const char *file)
 		error_print();
 		goto end;
 	}
-	if (x509_cert_from_pem(buf, outlen, buflen, fp) != 1) {
-		error_print();
-		goto end;
+	{
+		// nothing is stored in the caller's object unless the whole file decoded
+		size_t len;
+		if (x509_cert_from_pem(buf, &len, buflen, fp) != 1) {
+			error_print();
+			goto end;
+		}
+		*outlen = len;
 	}
 	*out = buf;
 	buf = NULL;
@@ -71,9 +76,14 @@ int x509_certs_new_from_file(uint8_t **out, size_t *outlen, const char *file)
 		error_print();
 		goto end;
 	}
-	if (x509_certs_from_pem(buf, outlen, buflen, fp) != 1) {
-		error_print();
-		goto end;
+	{
+		// nothing is stored in the caller's object unless the whole file decoded
+		size_t len;
+		if (x509_certs_from_pem(buf, &len, buflen, fp) != 1) {
+			error_print();
+			goto end;
+		}
+		*outlen = len;
 	}
 	*out = buf;
 	buf = NULL;
